@@ -330,6 +330,12 @@ def run(ch, render=False):
             if consumer == "ccsds_generator":
                 gen = pk.ccsds_generator(source, **kwargs)
             else:
+                # headers-only framing returns every packet as it stands, whatever the other options say: segment
+                # combining (a parsing-stage option) is drawn too, the packets carry all four sequence-flag values
+                if ch.chance(1, 2, "hdr_only_combine"):
+                    kwargs["combine_segmented_packets"] = True
+                    kwargs["secondary_header_bytes"] = ch.pick((0, 4, 1), "hdr_only_sh")
+                    w.probe("headers_only_with_combine")
                 gen = _defn.packet_generator(source, ccsds_headers_only=True, **kwargs)
             for i in range(len(pkts)):
                 item = next(gen)
